@@ -5,7 +5,7 @@ from pyvc.contracts import field
 field("Payload.value", "U")                 # the boxed value: opaque scalar under uninterpreted operators
 # coord_payload.py
 field("CoordPayload.coord", "int")
-field("CoordPayload.payload", "Payload")    # element forms of C11: leaf elements (maybe_box boxes scalars)
+field("CoordPayload.payload", "Payload|Fiber")   # C11 element forms require a leaf element (box); traversal yields either
 # metrics.py -- class attributes are fields of the class singleton.  The nested dict
 # Metrics.metrics["Compute"][k] is abstracted by three ghost counters (contract of incCount is tier T/B).
 field("Metrics.collecting", "bool")
@@ -35,3 +35,9 @@ field("Fiber.g_leaf", "bool")        # payloads are Payload boxes (leaf rank) ra
 field("Rank.fibers", "list[Fiber]")
 field("Rank.next_rank", "opt[Rank]")
 field("Rank._attrs", "RankAttrs")
+
+# classes defined inside the co-iteration operators: their class-level names capture the operands
+for _c in ("and_iterator", "or_iterator", "xor_iterator", "sub_iterator", "lshift_iterator"):
+    field(_c + ".a_fiber", "Fiber")
+    field(_c + ".b_fiber", "Fiber")
+field("lshift_iterator.spec_pos", "opt[int]")
